@@ -9,8 +9,6 @@ import (
 	"errors"
 	"fmt"
 	"math/big"
-	"os"
-	"time"
 	"runtime"
 	"runtime/debug"
 	"strconv"
@@ -644,7 +642,7 @@ func propC03(c *Ctx) {
 	acc := &svAcc{c: c, mu: &sync.Mutex{}}
 
 	// 1. every string over the alphabet up to a length, on all cores
-	maxLen, stripe := 6, int64(13)
+	maxLen, stripe := 6, int64(20)
 	if c.Thorough {
 		maxLen, stripe = 8, 70
 	}
@@ -700,7 +698,9 @@ func propC03(c *Ctx) {
 		for _, s := range sh.ops {
 			k++
 			c.Op(svParseLine(svEntries[k%5].name, 1024, s))
-			c.Op(svParseLine(svEntries[(k+1+k/5%3)%5].name, 1024, s))
+			if c.Thorough || k%2 == 0 {
+				c.Op(svParseLine(svEntries[(k+1+k/5%3)%5].name, 1024, s))
+			}
 		}
 	}
 	svCount(c, total)
@@ -758,27 +758,30 @@ func propC03(c *Ctx) {
 	}
 
 	// 5. all 256 values at every position of some seeds, insertions and deletions
+	chk := func(s string, full bool) {
+		c.Check("mut " + s)
+		svCheckParse(acc, s, full)
+	}
 	seeds := []string{"1.2.3-a.1+b.01", "v10.0.9-rc.1", "0.0.0", "v1.0.0+0", "18446744073709551615.0.1-0"}
 	for _, v := range seeds {
 		for pos := 0; pos < len(v); pos++ {
 			for b := 0; b < 256; b++ {
 				mut := []byte(v)
 				mut[pos] = byte(b)
-				svCheckParse(acc, string(mut), b%16 == 0)
+				chk(string(mut), b%16 == 0)
 				if b%6 == int(c.Seed%6) || (b >= '+' && b <= ':') {
 					c.Op(svParseLine(svEntries[(pos+b)%5].name, 1024, string(mut)))
 				}
 			}
 			del := v[:pos] + v[pos+1:]
-			svCheckParse(acc, del, true)
+			chk(del, true)
 			c.Op(svParseLine(svEntries[pos%5].name, 1024, del))
 			for _, ins := range []byte{'0', '.', '-', '+', 'v', ' ', 'a'} {
 				x := v[:pos] + string(ins) + v[pos:]
-				svCheckParse(acc, x, true)
+				chk(x, true)
 				c.Op(svParseLine(svEntries[(pos+int(ins))%5].name, 1024, x))
 			}
 		}
-		svCount(c, int64(len(v))*(256+1+7))
 	}
 	c.Op(svParseLine("Parse", 1024, ""))
 	c.Op(svParseLine("ParseTag", 1024, ""))
@@ -1227,9 +1230,9 @@ func propC06(c *Ctx) {
 	defer svSetMax(1024)()
 	defer svTuneGC()()
 	acc := &svAcc{c: c, mu: &sync.Mutex{}}
-	maxLen, opStripe, helperStripe := 4, 70, 40
+	maxLen, opStripe, helperStripe := 4, 90, 40
 	if c.Thorough {
-		maxLen, opStripe, helperStripe = 5, 420, 300
+		maxLen, opStripe, helperStripe = 5, 560, 300
 	}
 	uni := svUniverse(maxLen, svExtras)
 	n := len(uni)
@@ -1665,7 +1668,6 @@ func propC14(c *Ctx) {
 	c.Note("universe: %d pre-release texts (C06 universe up to length %d + %d mixed identifiers); %d ordered pairs (%d inside C06's excluded region, checked for coherence only), %d pairs through the six string helpers",
 		n, maxLen, len(svMixed), pairs, excl, helpers)
 
-	svT("C14 pairs")
 	// 2. the mixed identifiers against each other, every core pair of a small set, all helpers, all ops
 	mixed := append([]string{"", "a", "rc", "a0", "a2"}, svMixed...)
 	mp := make([]svPre, len(mixed))
@@ -1701,7 +1703,6 @@ func propC14(c *Ctx) {
 	}
 	svCount(c, int64(nm))
 
-	svT("C14 mixed")
 	// 3. string helpers on invalid texts: an error exactly when a text is invalid for the helper
 	nSp := 6000
 	if c.Thorough {
@@ -1740,7 +1741,6 @@ func propC14(c *Ctx) {
 		}
 	}
 
-	svT("C14 spoil")
 	// 4. random valid versions with full-range components (limit disabled: long identifier lists)
 	restore := svSetMax(0)
 	nRand := 20000
@@ -1791,7 +1791,6 @@ func propC14(c *Ctx) {
 	}
 	restore()
 
-	svT("C14 rand")
 	// 5. Next* on every version of the universe, at 2^64-1 and 2^64-2 in every position
 	nextCores := append([][3]uint64{{svM - 1, svM - 1, svM - 1}, {svM, svM - 1, 0}, {0, svM, svM - 1}, {svM - 1, 0, svM}, {0, 0, svM}, {0, svM, 0}}, svCores...)
 	nn := 0
@@ -1815,12 +1814,5 @@ func propC14(c *Ctx) {
 		}
 	}
 	svCount(c, int64(nn)*3)
-	svT("C14 next")
 	c.Note("Next*: %d versions x {major, minor, patch}, cores include 2^64-1 and 2^64-2 in every position", nn)
-}
-
-var svT0 = time.Now()
-
-func svT(what string) {
-	fmt.Fprintf(os.Stderr, "T %s %.2fs\n", what, time.Since(svT0).Seconds())
 }
